@@ -518,6 +518,12 @@ func (r *SortReg) Emit(sb *strings.Builder, usedFuns map[string]bool) {
 		sb.WriteString(r.funs[n])
 		sb.WriteString("\n")
 	}
+	// axioms attached to symbols that are not declared functions (prelude definitions): by key
+	for k := range r.axioms {
+		if _, declared := r.funs[k]; !declared && (usedFuns == nil || usedFuns[k]) {
+			names = append(names, k)
+		}
+	}
 	sort.Strings(names)
 	for _, n := range names {
 		for _, a := range r.axioms[n] {
@@ -542,6 +548,13 @@ func (r *SortReg) usedIn(text string) map[string]bool {
 		}
 	}
 	mark(text)
+	// axioms about prelude definitions (keys "ghost.<name>" without a declared function)
+	for k := range r.axioms {
+		if _, declared := r.funs[k]; !declared && containsSymbol(text, strings.TrimPrefix(k, "ghost.")) {
+			used[k] = true
+			work = append(work, k)
+		}
+	}
 	for len(work) > 0 {
 		n := work[len(work)-1]
 		work = work[:len(work)-1]
